@@ -345,6 +345,56 @@ static void kde(unsigned long long& unit)
 					}
 }
 
+// Weighted samples on a lattice: n sorted points whose gaps come from {0.1, 1.0}, first point from a small set, every weight
+// from {0.2, 1, 5}; windows that start at 0 (so the boundary correction's pseudo data fall next to the window edge).
+// The complete product is enumerated; oracle: non-negative everywhere, integral one.
+static void kde_lattice(unsigned long long& unit)
+{
+	static const double W3[] = {0.2, 1.0, 5.0};
+	static const double STARTS[] = {0.4, 0.9, 2.4};
+	std::vector<int> ns = mc::thorough() ? std::vector<int>{6, 7, 9} : std::vector<int>{6};
+	for(int n : ns)
+	{
+		int nw = n <= 7 ? 3 : 2;
+		long long wcombos = 1;
+		for(int i = 0; i < n; i++) wcombos *= nw;
+		int gapbits = n - 1, gstep = mc::thorough() ? 1 : 5;
+		for(int st = 0; st < 3; st++)
+			for(int g = 0; g < (1 << gapbits); g += gstep)
+				for(int bwm = 0; bwm < 2; bwm++)
+				{
+					if(!mc::mine(unit++)) continue;
+					std::vector<double> pos(n);
+					pos[0] = STARTS[st];
+					for(int i = 1; i < n; i++) pos[i] = pos[i - 1] + (((g >> (i - 1)) & 1) ? 1.0 : 0.1);
+					double lo = 0.0, hi = pos[n - 1] + 2.0, bw = bwm ? 0.25 : 0.0;
+					for(long long wc = 0; wc < wcombos; wc++)
+					{
+						std::vector<DataPoint> data;
+						long long t = wc;
+						std::string ws;
+						for(int i = 0; i < n; i++) { double w = nw == 3 ? W3[t % 3] : (t % 2 ? 5.0 : 0.2); t /= nw; data.push_back(DataPoint(pos[i], w)); ws += (i ? "," : "") + mc::dec(w); }
+						std::string key = "lattice,n=" + std::to_string(n) + ",start=" + mc::dec(pos[0]) + ",gaps=" + std::to_string(g) + ",weights=" + ws + ",bw=" + mc::dec(bw);
+						Interpolation K;
+						if(mc::library_exits([&]() { K = Perform_KDE(data, lo, hi, bw); })) { fail("kde", key, "terminated_process", "ended the process"); continue; }
+						g_cases++;
+						mc::count("kde_lattice_samples", 1);
+						double worst = 0;
+						for(int i = 0; i <= 149 * 4; i++)
+						{
+							double x = lo + (hi - lo) * i / (149.0 * 4);
+							if(x > hi) x = hi;
+							double v = K(x);
+							if(!(v >= 0) || !std::isfinite(v)) worst = std::min(worst, std::isfinite(v) ? v : -INFINITY);
+						}
+						if(worst < 0) fail("kde", key, "density_negative_or_not_finite", "smallest value " + mc::dec(worst));
+						double I = K.Integrate(lo, hi);
+						if(!(std::fabs(I - 1) <= 1e-6)) fail("kde", key, "density_does_not_integrate_to_one", "integral over the window = " + mc::dec(I));
+					}
+				}
+	}
+}
+
 int main(int argc, char** argv)
 {
 	mc::init(argc, argv);
@@ -356,6 +406,7 @@ int main(int argc, char** argv)
 	discrete_families(unit);
 	likelihoods(unit);
 	kde(unit);
+	kde_lattice(unit);
 	mc::count("evaluations", g_cases);
 	mc::count("distinct_nontrivial", g_cases);
 	mc::count("pdf_integrals", g_intervals);
